@@ -160,6 +160,53 @@ def check(out: Outcome, p: dict, xs: list, runners: list, enum: bool = False) ->
     out.case({"class": "BOCD", "params": p, "n": len(xs), "h": hash(tuple(xs)) & 0xFFFFFF}, nontrivial=fired)
 
 
+def check_long(out: Outcome, p: dict, xs: list, runners: list) -> None:
+    """streams of more than a thousand updates (run lengths beyond 2^10): the exact posterior by a renormalised linear-space forward
+    recursion in float64 with prefix sums (O(t) per step), compared with the detector's row and MAP decision at every step"""
+    fp = dets.full_params("BOCD", p)
+    r = dets.Runner("a", "BOCD", p)
+    if r.det is None:
+        return
+    d = r.det
+    h, pm0, pv0, dv = fp["hazard"], fp["prior_mean"], fp["prior_var"], fp["data_var"]
+    S = np.concatenate([[0.0], np.cumsum(np.asarray(xs, dtype=float))])
+    M = np.array([1.0])
+    fired = False
+    for t, x in enumerate(xs, 1):
+        r.update(x)
+        rep = {"class": "BOCD", "params": p, "stream_seeded": True, "n": t, "step": t, "kind": "long"}
+        if r.err is not None:
+            out.violation(f"BOCD: update raised {type(r.err).__name__}: {r.err} at step {t} of a long stream", rep)
+            break
+        rl = np.arange(t)                                  # run length r uses the r values before x
+        sums = S[t - 1] - S[t - 1 - rl]
+        prec = 1.0 / pv0 + rl / dv
+        mu = (pm0 / pv0 + sums / dv) / prec
+        var = 1.0 / prec + dv
+        pi = np.exp(-((x - mu) ** 2) / (2 * var)) / np.sqrt(2 * math.pi * var)
+        new = np.concatenate([[h * float(np.dot(M, pi))], (1 - h) * M * pi])
+        tot = float(new.sum())
+        if not tot > 0:
+            break
+        M = new / tot
+        got = np.exp(np.asarray(d.log_r[t, : t + 1], dtype=float))
+        if not np.all(np.isfinite(got)) or abs(float(got.sum()) - 1) > 1e-6 or float(np.max(np.abs(got - M))) > 1e-6:
+            out.violation(f"BOCD: run-length distribution at step {t} of a long stream differs from the exact posterior "
+                          f"(max abs diff {float(np.max(np.abs(got - M))):.3e}, sum {float(got.sum())!r})", rep)
+            break
+        if t >= fp["min_num_instances"]:
+            top = np.sort(M)[-2:]
+            if top[1] - top[0] < 1e-9:
+                continue
+            wd = int(np.argmax(M)) != t
+            fired = fired or wd
+            if bool(d.drift) != wd:
+                out.violation(f"BOCD: drift={bool(d.drift)} at step {t} of a long stream but the most probable run length is {int(np.argmax(M))}", rep)
+                break
+    runners.append(r)
+    out.case({"class": "BOCD", "params": p, "n": len(xs), "long": True}, nontrivial=fired)
+
+
 def run(out: Outcome) -> None:
     rng = rng_for(out.seed, "C08")
     thorough = out.tier == "thorough"
@@ -187,6 +234,10 @@ def run(out: Outcome) -> None:
         p = gen.rand_params(rng, "BOCD")
         p["min_num_instances"] = rng.choice([1, 2, 3])
         check(out, p, [rng.gauss(rng.choice([0, 2]), 1) for _ in range(9)], runners, enum=True)
+    for _ in range(2 if thorough else 1):
+        n1 = rng.randint(1080, 1250)
+        xs = [rng.gauss(0.0, 1.0) for _ in range(n1)] + [rng.gauss(rng.choice([3.0, -4.0]), 1.0) for _ in range(rng.randint(40, 120))]
+        check_long(out, {"hazard": rng.choice([0.01, 0.002]), "min_num_instances": rng.choice([1, 30])}, xs, runners)
     corr.compare_batch(out, runners, rtol=1e-8)
 
 
